@@ -35,6 +35,10 @@ pub enum Rec {
 
 pub struct Model {
     pub records: BTreeMap<Tid, Rec>,
+    /// the target's own last record, kept when another target's record was copied over it: if
+    /// nothing changed since the target's own last successful completion a skip is right,
+    /// whatever the foreign record holds
+    pub own_before_foreign: BTreeMap<Tid, Record>,
 }
 
 pub fn states(sc: &Scenario, case: &Case, t: &Tid) -> (ResState, ResState) {
@@ -274,7 +278,7 @@ pub fn eval_history(
         }
     };
     let builds = build_targets(sc);
-    let mut model = Model { records: builds.iter().map(|t| (t.clone(), Rec::None)).collect() };
+    let mut model = Model { records: builds.iter().map(|t| (t.clone(), Rec::None)).collect(), own_before_foreign: BTreeMap::new() };
     let mut idx = 0;
     let mut edits_since_last = 0usize;
     for st in &sc.steps {
@@ -314,6 +318,9 @@ pub fn eval_history(
                         if (*fp, ft.clone()) == t || !src_exists {
                             cur
                         } else {
+                            if let Rec::Some(own) | Rec::Maybe(own) = &cur {
+                                model.own_before_foreign.entry(t.clone()).or_insert_with(|| own.clone());
+                            }
                             match model.records.get(&(*fp, ft.clone())) {
                                 Some(Rec::Some(r)) | Some(Rec::Maybe(r)) => Rec::Maybe(r.clone()),
                                 _ => Rec::None,
@@ -400,6 +407,14 @@ pub fn eval_history(
                             // record is None anyway, so the comparison is moot
                             let ctx = format!("invocation#{} argv=[{}] edits-before={}", idx, inv.args.join(" "), edits_since_last);
                             verdict = judge(sc, t, &rec, &cur_in, &cur_out, &obs, w, &ctx);
+                            // zinoma's comparison ignores commands a (foreign) record holds beyond
+                            // the declared ones; a skip under such a record is still right when the
+                            // target's resources equal its OWN last recorded completion
+                            if let (Some(v), Rec::Maybe(_), Some(own)) = (&verdict, &rec, model.own_before_foreign.get(t)) {
+                                if v.oracle == "skipped-although-changed" && model::same_state(&own.input, &cur_in).0 && model::same_state(&own.output, &cur_out).0 {
+                                    verdict = None;
+                                }
+                            }
                         }
                     }
                 }
@@ -455,6 +470,7 @@ pub fn eval_history(
                             Rec::None
                         };
                         model.records.insert(t.clone(), new);
+                        model.own_before_foreign.remove(t);
                     }
                 }
                 edits_since_last = 0;
@@ -1279,7 +1295,7 @@ fn crash_inside_clean(sc: &Scenario, root: &Path, stats: &mut Stats) -> Option<V
             continue;
         }
         let after_tree = snapshot_tree(&case.root);
-        let model = Model { records: BTreeMap::new() };
+        let model = Model { records: BTreeMap::new(), own_before_foreign: BTreeMap::new() };
         let o = InvObs { sc, case: &case, inv: &ci_inv, r: &r, before_tree: &before_tree, after_tree: &after_tree, crashed: true };
         if let Some(v) = clean_oracle(&o, &model) {
             verdict = Some(Violation { oracle: format!("crash-in-clean:{}", v.oracle), witness: format!("{} focus=cleancrash@{}", v.witness, k), message: format!("zinoma killed at decision {} of `{}`: {}", k, inv.args.join(" "), v.message) });
